@@ -841,8 +841,30 @@ int run_check(const CheckArgs &a)
 		}
 	};
 
+	// VERIF_FAST=1 (mutation screening only): stop at the first candidate, no gate, no minimisation, no evidence
+	const bool fast = ::getenv("VERIF_FAST") != nullptr;
 	int live = nw;
 	while (live > 0) {
+		bool fast_hit = false;
+		std::string fast_cls;
+		if (fast) {
+			for (auto &c : cands)
+				if (c.from_crash || !match_known(known, P.id, c.cls)) {
+					fast_hit = true;
+					fast_cls = c.from_crash ? "(worker death)" : c.cls;
+					break;
+				}
+		}
+		if (fast && fast_hit) {
+			for (auto &s : slots)
+				if (s.pid > 0 && s.fd >= 0)
+					kill(s.pid, SIGKILL);
+			for (auto &s : slots)
+				if (s.pid > 0)
+					waitpid(s.pid, nullptr, 0);
+			dprintf(g_out_fd, "FAST: candidate violation of %s: %s\n", P.id.c_str(), fast_cls.c_str());
+			return 1;
+		}
 		std::vector<struct pollfd> pf;
 		std::vector<int> who;
 		for (int i = 0; i < nw; i++)
@@ -912,6 +934,15 @@ int run_check(const CheckArgs &a)
 		}
 	}
 	double t_explore = now_s() - t0;
+	if (fast) {
+		for (auto &c : cands)
+			if (c.from_crash || !match_known(known, P.id, c.cls)) {
+				dprintf(g_out_fd, "FAST: candidate violation of %s: %s\n", P.id.c_str(), c.from_crash ? "(worker death)" : c.cls.c_str());
+				return 1;
+			}
+		dprintf(g_out_fd, "FAST: %s no candidate in %lu runs\n", P.id.c_str(), (unsigned long)runs);
+		return 0;
+	}
 
 	// ---- process candidates: classify, gate, minimise, replay, known findings
 	int exit_code = 0;
